@@ -125,6 +125,15 @@ def _root_name(e: ast.AST) -> Optional[str]:
     return e.id if isinstance(e, ast.Name) else None
 
 
+def _anc11(mod: Any, n: ast.AST, stop: Any) -> List[ast.AST]:
+    out = []
+    p = mod.parents.get(n)
+    while p is not None and p is not stop:
+        out.append(p)
+        p = mod.parents.get(p)
+    return out
+
+
 def run(ctx: Any, prog: Program) -> None:
     bsp = prog.module('bsp')
     fold = Folder(prog, bsp)
@@ -447,6 +456,45 @@ def run(ctx: Any, prog: Program) -> None:
     # `self.lump_layout[KEY]` is how the record width follows the BSP flavour (Chaos v25 widens indexes).  A side that takes the table entry
     # only under a further condition (`layout[K] if vers >= 12 else '<H'`) while the other side always takes it disagrees for the flavours
     # in between.
+    # ---- L26: a side lump filled by a writer that serves several lumps keeps what the previous call stored, unless this call has something -----
+    # `_write_faces_common` is the body of three `_lmp_write_*` methods and also stores the FACEIDS lump, which belongs to all of them.  The
+    # rebuilds run one after another, so the last one wins: a call whose own list is empty (an LDR-only map's HDR faces) has to leave the lump
+    # alone.  The store is therefore under a test that is false when the list written is empty - the list itself, its length, or the sequence
+    # whose loop appends one entry per item.
+    ctx.rule('C11.L26', 'a writer shared by several lumps replaces a side lump only when it has entries for it', floor=1)
+    n26 = 0
+    for q26, fl26 in bsp.all_funcs().items():
+        for f26 in fl26:
+            callers26 = {cq for cq, cfl in bsp.all_funcs().items() if cq.startswith('BSP._lmp_write_') for cf in cfl for c in ast.walk(cf)
+                         if isinstance(c, ast.Call) and isinstance(c.func, ast.Attribute) and 'BSP.' + c.func.attr == q26}
+            if len(callers26) < 2:
+                continue
+            for st26 in walk_no_nested(f26):
+                if not (isinstance(st26, ast.Assign) and len(st26.targets) == 1 and isinstance(st26.targets[0], ast.Attribute) and st26.targets[0].attr == 'data'
+                        and isinstance(st26.targets[0].value, ast.Subscript) and dotted(st26.targets[0].value.value) == 'self.lumps'):
+                    continue
+                written = [a for a in ast.walk(st26.value) if isinstance(a, ast.Name)]
+                lists26 = {a.id for a in written if any(isinstance(x, ast.Assign) and any(dotted(t) == a.id for t in x.targets) and isinstance(x.value, (ast.List, ast.ListComp)) for x in walk_no_nested(f26))}
+                if not lists26:
+                    ctx.shape('C11.L26', False, bsp, st26, f'{q26}: what `{U(st26)[:60]}` writes is not a local list', func=q26, text=f'{q26}: side lump {U(st26.targets[0].value.slice)}')
+                    continue
+                # sequences whose loop feeds the list one entry per item
+                feeders = set(lists26)
+                for lp in walk_no_nested(f26):
+                    if isinstance(lp, ast.For) and isinstance(lp.iter, ast.Name) and any(isinstance(c, ast.Call) and isinstance(c.func, ast.Attribute) and c.func.attr == 'append' and dotted(c.func.value) in lists26 for b in lp.body for c in ast.walk(b)):
+                        feeders.add(lp.iter.id)
+                guards26 = [a.test for a in _anc11(bsp, st26, f26) if isinstance(a, ast.If) and any(st26 is x for b in a.body for x in ast.walk(b))]
+                n26 += 1
+                ok26 = any((isinstance(g, ast.Name) and g.id in feeders) or (isinstance(g, ast.Call) and dotted(g.func) == 'len' and g.args and dotted(g.args[0]) in feeders)
+                           or (isinstance(g, ast.Compare) and isinstance(g.left, ast.Call) and dotted(g.left.func) == 'len' and dotted(g.left.args[0]) in feeders) for g in guards26)
+                mentions = any(isinstance(x, ast.Name) and x.id in feeders for g in guards26 for x in ast.walk(g))
+                if not ok26 and mentions:
+                    ctx.shape('C11.L26', False, bsp, st26, f'{q26}: guard `{U(guards26[0])[:50]}` on the side-lump store mentions the list but is not an enumerated emptiness test', func=q26, text=f'{q26}: side lump {U(st26.targets[0].value.slice)}')
+                    continue
+                ctx.check('C11.L26', ok26, bsp, st26, f'{q26} serves {sorted(callers26)} and stores `{U(st26.targets[0])}` ' + (f'under `{U(guards26[0])[:50]}`' if guards26 else 'unconditionally')
+                          + f', which does not depend on whether {sorted(lists26)} has entries: the rebuild that runs last replaces the lump even with an empty array (an LDR-only map\'s HDR face list wipes the ids just '
+                          'written for the LDR faces)', func=q26, text=f'{q26}: side lump {U(st26.targets[0].value.slice)}')
+    ctx.shape('C11.L26', n26 >= 1, bsp, bsp.tree, f'{n26} side-lump stores in shared writers found (FACEIDS in _write_faces_common confirmed by hand)', text='side-lump stores')
     ctx.rule('C11.L20', 'reader and writer take a record format from the layout table under the same conditions', floor=10)
     lay: Dict[str, Dict[str, Set[Tuple[str, ...]]]] = {}
     lay_node: Dict[Tuple[str, str], ast.AST] = {}
@@ -893,6 +941,8 @@ def run(ctx: Any, prog: Program) -> None:
 
 
 MUTANTS = [
+    {'id': 'faceids_rebuilt_by_every_split_faces_writer', 'file': 'bsp.py', 'find': "            if hammer_ids:\n                self.lumps[BSP_LUMPS.FACEIDS].data", 'replace': "            if get_orig_face is not None:\n                self.lumps[BSP_LUMPS.FACEIDS].data", 'expect': 'C11.L26'},
+    {'id': 'ok_faceids_guarded_by_faces', 'file': 'bsp.py', 'find': "            if hammer_ids:\n                self.lumps[BSP_LUMPS.FACEIDS].data", 'replace': "            if len(hammer_ids) > 0:\n                self.lumps[BSP_LUMPS.FACEIDS].data", 'expect': None},
     {'id': 'ok_prop_flags_split_into_locals', 'file': 'bsp.py', 'find': "            start = prop_lump.tell()\n", 'replace': "            start = prop_lump.tell()\n            flags_prim = prop.flags.value_prim\n            flags_sec = prop.flags.value_sec\n", 'extra': [{'file': 'bsp.py', 'find': "                0 if version.is_lightmap else prop.flags.value_prim,", 'replace': "                0 if version.is_lightmap else flags_prim,"}, {'file': 'bsp.py', 'find': "                prop_lump.write(struct.pack('<I', prop.flags.value_sec))", 'replace': "                prop_lump.write(struct.pack('<I', flags_sec))"}], 'expect': None, 'note': 'negative control: the two flag halves taken into locals'},
     {'id': 'lightmap_flags_primary_local', 'file': 'bsp.py', 'find': "            start = prop_lump.tell()\n", 'replace': "            start = prop_lump.tell()\n            flags_prim = prop.flags.value_prim\n", 'extra': [{'file': 'bsp.py', 'find': "                    '<IHH',\n                    prop.flags.value,\n", 'replace': "                    '<IHH',\n                    flags_prim,\n"}], 'expect': 'C11.L10'},
     {'id': 'find_or_insert_numbers_by_key_map', 'file': 'binformat.py', 'find': "            ind = by_index[key] = len(item_list)\n", 'replace': "            ind = by_index[key] = len(by_index)\n", 'expect': 'C11.L25'},
